@@ -21,6 +21,7 @@ from .. import alphabet as A, canon, data, ops, report, sched
 
 ID = "C05"
 QROWS = [[0, 0], [1, 1], [2, 2], [0, 1], [2, 0], [1, 0]]
+QDUP = [[1, 1], [1, 1], [0, 1], [0, 1], [1, 1], [2, 2]]      # consecutive rows with identical neighbourhoods
 
 
 def meta(tier, seed):
@@ -60,6 +61,14 @@ def shards(tier, seed):
         out.append({"ob": 2, "ln": ln, "nn": nn, "nmax": nmax, "seed": 51 + seed})
     # metrics whose value for one row could depend on the other rows of the call (scipy derives the variance /
     # covariance from the stacked inputs): row locality must hold there too
+    # a radius that covers the whole history (every row has the same neighbourhood) and repeated query rows: shortcuts
+    # that reuse work between consecutive rows of a chunk must not make a row depend on its chunk
+    for ln in ("lts1", "ts", "eg5", "ucb", "sm"):
+        out.append({"ob": 2, "ln": ln, "nn": ["Radius", {"radius": 50.0, "metric": "euclidean"}], "nmax": nmax,
+                    "seed": 51 + seed, "dup": True})
+        out.append({"ob": 2, "ln": ln, "nn": ["KNearest", {"k": 8, "metric": "euclidean"}], "nmax": nmax,
+                    "seed": 51 + seed, "dup": True})
+        out.append({"ob": 2, "ln": ln, "nn": "lsh", "nmax": nmax, "seed": 51 + seed, "dup": True})
     for metric in ("seuclidean", "mahalanobis", "cosine"):
         for ln in ("eg0", "ucb"):
             out.append({"ob": 2, "ln": ln, "nn": ["Radius", {"radius": 1.5, "metric": metric}], "nmax": nmax,
@@ -196,7 +205,7 @@ def ob2(shard, acc):
     cfg = A.config(ln, nn, seed=shard["seed"])
     mab = trained(cfg)
     for n in range(1, shard["nmax"] + 1):
-        q = QROWS[:n]
+        q = (QDUP if shard.get("dup") else QROWS)[:n]
         for call in ("predict", "predict_expectations"):
             ref = ops.call(copy.deepcopy(mab), call, q)
             acc.outcome(ref)
